@@ -301,6 +301,10 @@ def extract_in(trace):
                 return 0
             try:
                 if isinstance(d, str) and d.startswith("'"):
+                    b = v.get("binary")
+                    if b:
+                        n = int(b, 2)
+                        return n - (1 << len(b)) if (v.get("type", "").startswith("signed") or v.get("type") == "char") and b[0] == "1" else n
                     return ord(d.strip("'")) if len(d.strip("'")) == 1 else 0
                 return int(str(d).rstrip("ulUL"))
             except ValueError:
@@ -420,6 +424,11 @@ def run_unit(u, tier, keep=False, extra_defines=(), variant=""):
             if why:
                 res["excluded"].append({"id": pid, "why": why, "status": r.get("status")})
                 continue
+            if r.get("status") == "UNKNOWN":
+                # CBMC 6 turns every obligation that lies after a FAILED one on the same path into UNKNOWN (assert-then-assume);
+                # they are neither discharged nor failures of their own
+                res.setdefault("unknown", []).append(pid)
+                continue
             nob += 1
             if r.get("status") == "SUCCESS":
                 ok += 1
@@ -434,6 +443,8 @@ def run_unit(u, tier, keep=False, extra_defines=(), variant=""):
         res["discharged"] = ok
         if res["failed"]:
             res["verdict"] = "violated"
+        elif res.get("unknown"):
+            raise Undecided("%d obligations UNKNOWN without any FAILURE (e.g. %s)" % (len(res["unknown"]), ", ".join(res["unknown"][:3])))
         elif nob < u["min_obligations"]:
             raise Undecided("vacuity guard: %d obligations generated, at least %d expected" % (nob, u["min_obligations"]))
         else:
@@ -551,7 +562,7 @@ def gen_native(contracts, replaced_names=()):
     return "\n".join(g) + "\n"
 
 
-def native_replay(u, in_value, extra_defines=(), failed=None):
+def native_replay(u, in_value, extra_defines=(), failed=None, tier="quick"):
     """Compile the unit natively (gcc + ASan/UBSan) with IN fixed to the counterexample and run it.
     Returns dict(reproduced: bool|None, output: str)."""
     if not u.get("native", True):
@@ -569,7 +580,7 @@ def native_replay(u, in_value, extra_defines=(), failed=None):
         inc = ["-I" + wd, "-I" + os.path.join(VERIF, "include"), "-I" + u["dir"], "-I" + os.path.join(VERIF, "contracts")]
         exe = os.path.join(wd, "replay.bin")
         cmd = ["gcc", "-g", "-O0", "-w", "-fsanitize=address,undefined", "-fno-sanitize-recover=undefined", "-DVF_NATIVE", "-D" + GUARD] \
-            + ["-D" + d for d in u["defines"]] + ["-D" + d for d in u["defines_quick"]] + ["-D" + d for d in extra_defines] + flags + inc \
+            + ["-D" + d for d in u["defines"]] + ["-D" + d for d in (u["defines_thorough"] if tier == "thorough" else u["defines_quick"])] + ["-D" + d for d in extra_defines] + flags + inc \
             + [os.path.join(wd, "wrapper.c"), "-o", exe, "-Wl,--unresolved-symbols=ignore-all", "-no-pie", "-lpthread"]
         rc, out, err, _ = run(cmd, 300, mem_gb=64, cwd=wd)
         if rc != 0:
